@@ -69,6 +69,7 @@ def generate(g, tier):
         cmd = r.choice(VALIDATED)
         is_int = cmd in DELAYS
         arg = r.choice(BOUNDARY_INT if (is_int or g.chance(0.15)) else BOUNDARY_STR)
+        if cmd == 'ENTER' and arg == '2^70': continue      # `$ENTER <huge count>` is the known finding D19 (C09 probes it): it only costs time-outs here
         if g.chance(0.3): cmd = cmd.lower()
         for t in deliveries(g, cmd, arg, is_int or arg in BOUNDARY_INT and arg not in BOUNDARY_STR):
             pre = 'STRING before\n' if g.chance(0.3) else ''
